@@ -20,6 +20,7 @@ import (
 	"github.com/cloudwego/hertz/pkg/app"
 	"github.com/cloudwego/hertz/pkg/common/config"
 	"github.com/cloudwego/hertz/pkg/common/hlog"
+	"github.com/cloudwego/hertz/pkg/network"
 	"github.com/cloudwego/hertz/pkg/network/standard"
 	"github.com/cloudwego/hertz/pkg/route"
 	"github.com/cloudwego/hertz/verifrt"
@@ -57,6 +58,7 @@ type Scenario struct {
 	Shutdowns     int             `json:"shutdowns"`      // concurrent Shutdown callers (1 or 2)
 	Again         bool            `json:"again"`          // a further Shutdown after the first returned
 	BeforeRun     bool            `json:"before_run"`     // Shutdown on an engine that was never started
+	ConnectHook   time.Duration   `json:"connect_hook,omitempty"` // the OnAccept and OnConnect hooks block this long each
 }
 
 type Job struct {
@@ -82,7 +84,10 @@ type pconn struct {
 	readDL    time.Duration
 	consumed  int
 	reqEnds   []int // stream offsets at which each request sent so far ends
+	reqTimes  []time.Duration
 	sent      int
+	accepted  bool
+	acceptAt  time.Duration
 }
 
 func (c *pconn) Read(p []byte) (int, error) {
@@ -151,6 +156,7 @@ func (c *pconn) send(b []byte, endsRequest bool) {
 	c.sent += len(b)
 	if endsRequest {
 		c.reqEnds = append(c.reqEnds, c.sent)
+		c.reqTimes = append(c.reqTimes, verifrt.VNow())
 	}
 }
 
@@ -273,6 +279,22 @@ func (w *World) Body() func() {
 		opt.DisablePrintRoute = true
 		opt.NoDefaultDate = true
 		opt.TransporterNewer = standard.NewTransporter
+		// the accept hook records when the server took the connection (it runs right after Accept returned)
+		opt.OnAccept = func(conn net.Conn) context.Context {
+			if pc, ok := conn.(*pconn); ok {
+				pc.accepted, pc.acceptAt = true, verifrt.VNow()
+			}
+			if sc.ConnectHook > 0 {
+				verifrt.Sleep(sc.ConnectHook)
+			}
+			return context.Background()
+		}
+		if sc.ConnectHook > 0 {
+			opt.OnConnect = func(ctx context.Context, conn network.Conn) context.Context {
+				verifrt.Sleep(sc.ConnectHook)
+				return ctx
+			}
+		}
 		e := route.NewEngine(opt)
 		w.e = e
 		e.GET("/h", w.handler)
@@ -343,6 +365,22 @@ func (w *World) callShutdown(r *shutdownRec) {
 	r.slackFree = verifrt.NoSlack()
 	if l := verifrt.ListenerFor(listenAddr); l != nil {
 		r.acceptsAtReturn = l.Accepts
+	}
+	// A nil return before the exit wait time has elapsed says the server has drained: a request that was completely sent, on a connection the server had
+	// accepted, before Shutdown was called has its complete response by now. (Judged only in executions without early
+	// timer firings: the accept loop counts a connection a few instructions after taking it, which the first ticker
+	// period of Shutdown is there to cover - scheduling slack, not a defect.)
+	if r.err == nil && r.slackFree && r.end-r.start < w.job.Sc.ExitWait {
+		for i, c := range w.conns {
+			if c == nil || !c.accepted || c.acceptAt >= r.start {
+				continue
+			}
+			for k, t := range c.reqTimes {
+				if t < r.start && !c.complete(k+1) && !c.srvClosed {
+					w.violate("Shutdown returned nil after %v although request %d of client %d - sent at %v on a connection accepted at %v, both before the call at %v - had not been answered yet", r.end-r.start, k, i, t, c.acceptAt, r.start)
+				}
+			}
+		}
 	}
 }
 
